@@ -543,7 +543,9 @@ def check_strides(ctx, w):
         zero = False
         for conds, r, p in paths.returns_with_conds(g.node):
             cs = [expr.CP(expr.cond_str(t, genv), pol) for t, pol in conds]
-            if cs and cs[0] == expr.CP(expr.spec_cond('%s == 0' % off), True) and isinstance(r, ast.Constant) and r.value == 0:
+            # exactly: table offset 0 -> 0 entries, with no further condition (a stale count in a file whose table was detached by
+            # zeroing the offset alone must not bring the table back)
+            if cs == [expr.CP(expr.spec_cond('%s == 0' % off), True)] and isinstance(r, ast.Constant) and r.value == 0:
                 zero = True
         ctx.ob('I-STRIDE0', g.construct, 'no table (%s == 0) -> count 0' % off, zero or not exempt,
                msg='the entry-size guard is skipped when the table offset is 0; with a non-zero count and entry size 0 the same bytes are '
